@@ -91,7 +91,7 @@ def bounded(tier, seed):
                                 'from specs.c17_listing import replay_listing\nsys.exit(replay_listing(%r, %r, %r))\n' % (bad, top_paths, np, inner_paths, VERIF, list(top_paths), np, inner_paths))
                     viol.append({'what': bad + ' (top-level %r, nested site at %r with %r)' % (top_paths, np, inner_paths), 'replay': path})
     copy_standin = copy_conformance()
-    return [copy_standin, filter_conformance(tier), {'name': 'C17/discovery-lists-routable-full-paths', 'tool': 'bounded enumeration (native Site objects)',
+    return [copy_standin, filter_conformance(tier), routing_reference(tier), {'name': 'C17/discovery-lists-routable-full-paths', 'tool': 'bounded enumeration (native Site objects)',
              'bound': 'pairs of top-level paths over %r up to 2 components x 3 nesting points x 4 inner layouts' % comps,
              'inputs_tried': n, 'samples': samples, 'violations': viol, 'known': [{'id': k, 'what': v} for k, v in known.items()], 'counted_as_proved': False}]
 
@@ -134,6 +134,108 @@ def replay_listing(top_paths, np, inner_paths):
         print(l.href, '->', got, '(describes %s)' % t)
         bad |= got != t
     return 1 if bad else 0
+
+
+def _routing_site(prefixes, leaves):
+    """a Site with path-capable catchers at the given prefixes and plain resources at the given exact paths"""
+    from aiocoap import resource, Message
+
+    class Leaf(resource.Resource):
+        def __init__(self, tag):
+            super().__init__()
+            self.tag = tag
+
+        async def render_get(self, request):
+            return Message(payload=repr((self.tag, tuple(request.opt.uri_path), tuple(getattr(request, '_original_request_path', ()) or ()))).encode())
+
+    class Catch(Leaf, resource.PathCapable):
+        pass
+    root = resource.Site()
+    for p in leaves:
+        root.add_resource(tuple(p), Leaf('leaf:' + '/'.join(p)))
+    for p in prefixes:
+        root.add_resource(tuple(p), Catch('nested:' + '/'.join(p)))
+    return root
+
+
+def _route_reference(prefixes, leaves, path):
+    """the routing rule as C17 states it: exact resource, else the nested entry at the LONGEST PROPER prefix (which receives the
+    remaining components; a single empty remaining component addresses its root -- the documented special case), else 4.04"""
+    path = tuple(path)
+    if path in [tuple(p) for p in leaves]:
+        return ('leaf:' + '/'.join(path), (), path)
+    best = None
+    for p in prefixes:
+        p = tuple(p)
+        if 0 < len(p) < len(path) and path[:len(p)] == p and (best is None or len(p) > len(best)):
+            best = p
+    if best is None:
+        return 'NotFound'
+    rest = path[len(best):]
+    return ('nested:' + '/'.join(best), () if rest == ('',) else rest, path)
+
+
+def _route_real(root, path, loop):
+    from aiocoap import Message, GET, error
+    from aiocoap.message import Direction
+    req = Message(code=GET, uri_path=tuple(path))
+    req.direction = Direction.INCOMING
+    try:
+        return eval(loop.run_until_complete(root.render(req)).payload.decode())
+    except error.NotFound:
+        return 'NotFound'
+    except Exception as e:
+        return 'ERR ' + type(e).__name__
+
+
+def routing_reference(tier='quick'):
+    """Routing against the rule of the property text, natively on real Site objects with OVERLAPPING nested prefixes (the deductive
+    contract of _find_child_and_pathstripped_message covers the loop as written; this stand-in is independent of its shape)."""
+    import asyncio, itertools, os
+    VERIF = os.path.dirname(os.path.dirname(os.path.abspath(__file__)))
+    P = [('a',), ('a', 'b'), ('a', 'b', 'c'), ('b',), ('a', '')]
+    L = [[], [('a',), ('x',)], [('a', 'b'), ('a', 'b', 'x')], [('a', 'b', 'c', 'x'), ('b', '')]]
+    alphabet = ['a', 'b', 'c', 'x', '']
+    paths = [p for k in range(0, 5 if tier == 'thorough' else 4) for p in itertools.product(alphabet, repeat=k)]
+    if tier != 'thorough':
+        paths += [p for p in itertools.product(['a', 'b', 'c', ''], repeat=4)]
+    viol, n, samples = [], 0, []
+    loop = asyncio.new_event_loop()
+    try:
+        for k in (2, 3) if tier == 'thorough' else (2,):
+            for prefixes in itertools.combinations(P, k):
+                for leaves in L:
+                    root = _routing_site(prefixes, leaves)
+                    for path in paths:
+                        n += 1
+                        want, got = _route_reference(prefixes, leaves, path), _route_real(root, path, loop)
+                        if len(samples) < 3 and n % 4001 == 0:
+                            samples.append({'nested at': prefixes, 'resources': leaves, 'path': path, 'routed to': got})
+                        if want != got and len(viol) < 10:
+                            rp = os.path.join(VERIF, 'replays', 'C17-routing-%d.py' % (len(viol) + 1))
+                            os.makedirs(os.path.dirname(rp), exist_ok=True)
+                            what = 'request for /%s with nested entries at %r and resources at %r: (handler, path it sees, original path) = %r, the longest-proper-prefix rule gives %r' % ('/'.join(path), prefixes, leaves, got, want)
+                            with open(rp, 'w') as f:
+                                f.write('#!/venv/bin/python\n"""C17 replay (bounded stand-in, routing against the longest-proper-prefix rule): %s"""\n'
+                                        'import sys, os\nsys.path.insert(0, %r); sys.path.insert(0, os.environ.get("VERIF_REPO", "/repo"))\n'
+                                        'from specs.c17_listing import replay_routing\nsys.exit(replay_routing(%r, %r, %r))\n' % (what, VERIF, prefixes, leaves, path))
+                            viol.append({'what': what, 'replay': rp})
+    finally:
+        loop.close()
+    return {'name': 'C17/routing-follows-longest-proper-prefix', 'tool': 'bounded enumeration (native Site objects against the rule of the property text)',
+            'bound': '%d-subsets of %d overlapping nested prefixes x %d resource layouts x %d request paths (up to %d components over %r)' % (
+                3 if tier == 'thorough' else 2, len(P), len(L), len(paths), 4, alphabet),
+            'inputs_tried': n, 'samples': samples, 'violations': viol, 'counted_as_proved': False}
+
+
+def replay_routing(prefixes, leaves, path):
+    import asyncio
+    loop = asyncio.new_event_loop()
+    root = _routing_site(prefixes, leaves)
+    got, want = _route_real(root, path, loop), _route_reference(prefixes, leaves, path)
+    loop.close()
+    print('request path', path, '\n routed to      ', got, '\n rule of C17 says', want)
+    return 0 if got == want else 1
 
 
 def copy_conformance():
